@@ -5,6 +5,7 @@ use crate::engine::{Limits, RunResult, Scenario};
 use crate::job::{Exec, Executor, Job, JobResult, JobSpec, Violation};
 use crate::oracles::Finding;
 
+pub mod c06;
 pub mod c07;
 pub mod c08;
 pub mod c09;
@@ -13,6 +14,7 @@ pub mod c09;
 /// (a violation or a note has been recorded in `out`)
 pub fn make(spec: &JobSpec, ex: &mut Executor, out: &mut JobResult) -> Option<Box<dyn Job>> {
     match spec.check.as_str() {
+        "C06" => c06::make(spec, ex, out),
         "C07" => c07::make(spec, ex, out),
         "C08" => c08::make(spec, ex, out),
         "C09" => c09::make(spec, ex, out),
